@@ -258,6 +258,7 @@ var floorNames = []string{
 	"out-of-range-refused", "nonzero-reserved-refused", "documented-zero-reserved-accepted-some", "accepted-bytes-reencode-identically",
 	"single-byte-change-refused", "single-byte-change-accepted", "log-cut-on-event-boundary-accepted", "sp800155-zero-padding-accepted",
 	"sp800155-nonzero-padding-refused", "stream-readers-all-three", "vmsa-all-fields-decoded", "pageinfo-digest-checked",
+	"encoding-independent-of-spare-capacity", "callers-spare-capacity-untouched",
 }
 var floors = map[string]int{}
 var matched = map[string]int{}
